@@ -186,6 +186,8 @@ def apply_edits(item, edits, twin_false=False):
             if kind not in REPLACE_KINDS:
                 raise SpecError("replace edit needs kind= one of %s" % sorted(REPLACE_KINDS))
             item.replace(kind, e["a"], e["b"], int(at.get("count", "1")), at.get("why", ""))
+        elif k == "lift-block":
+            item.lift_block(at["anchor"], int(at.get("nth", "1")), e["a"], at.get("why", ""))
         elif k == "desugar-for":
             item.desugar_for(int(at["loop"]), at.get("it", "vit"))
         elif k == "sinks":
